@@ -397,6 +397,13 @@ func Run(r *core.Run) {
 			}
 			tampered = append(tampered, L[:i]+L[i+1:], L[:i]+"B"+L[i:])
 		}
+		// the last character of the initial state may carry unused low bits: every other base64url character there
+		// (a decoder that ignores those bits must not make two spellings of one state resolve)
+		for _, ch := range "ABCDEFGHIJKLMNOPQRSTUVWXYZabcdefghijklmnopqrstuvwxyz0123456789-_" {
+			if byte(ch) != L[len(L)-1] {
+				tampered = append(tampered, L[:len(L)-1]+string(ch))
+			}
+		}
 		// suffix of another document, re-encodings, short form
 		parts := strings.Split(L, ":")
 		state, suffix := parts[3], parts[2]
